@@ -4,7 +4,7 @@
    hand models that are run against the real code on every run. *)
 From Coq Require Import ZArith List Bool.
 From MomoCommon Require Import GenPrelude.
-From C09 Require Gen_UIntMath Gen_MemPoolConst Gen_MemPool PoolLayout PoolLinks PoolArith PoolLinksProofs PoolModel.
+From C09 Require Gen_UIntMath Gen_MemPoolConst Gen_MemPool PoolLayout PoolLinks PoolArith PoolLinksProofs PoolModel PoolConc PoolConcProofs.
 Import ListNotations.
 Local Open Scope Z_scope.
 
@@ -115,6 +115,39 @@ Theorem C09_mergefrom_dll_inv : forall h L1 R1 L2 R2 head1 head2,
 Proof. exact PoolLinksProofs.merge_from_dll. Qed.
 Print Assumptions C09_mergefrom_dll_inv.
 
+(* dll_inv for pvMoveBufferToHead: for ALL heaps and lists - if the pool's buffer list is A ++ b :: B ++ head :: R (b a full
+   buffer left of the head), the real sequence of pointer writes does not assert, makes b the head, and leaves the
+   well-formed list A ++ B ++ b :: head :: R; links of buffers outside the list are untouched. *)
+Theorem C09_movetohead_dll_inv : forall h A B R b head,
+  PoolLinksProofs.dll h (A ++ b :: B ++ head :: R) ->
+  exists h', PoolLinks.move_to_head h head b = Some (h', b) /\ PoolLinksProofs.dll h' (A ++ B ++ b :: head :: R) /\
+    (forall x, ~ In x (A ++ b :: B ++ head :: R) -> PoolLinks.hprev h' x = PoolLinks.hprev h x /\ PoolLinks.hnext h' x = PoolLinks.hnext h x).
+Proof. exact PoolLinksProofs.move_to_head_dll. Qed.
+Print Assumptions C09_movetohead_dll_inv.
+
+(* dll_inv for pvDeleteBuffer: any buffer b other than the head is unlinked, the rest stays one well-formed list *)
+Theorem C09_deletebuffer_dll_inv : forall h A B b head,
+  PoolLinksProofs.dll h (A ++ b :: B) -> head <> b ->
+  exists h', PoolLinks.delete_buffer h head b = Some h' /\ PoolLinksProofs.dll h' (A ++ B) /\
+    (forall x, ~ In x (A ++ b :: B) -> PoolLinks.hprev h' x = PoolLinks.hprev h x /\ PoolLinks.hnext h' x = PoolLinks.hnext h x).
+Proof. exact PoolLinksProofs.delete_buffer_dll. Qed.
+Print Assumptions C09_deletebuffer_dll_inv.
+
+(* dll_inv for pvNewBuffer (a fresh buffer is a one-element list) and for the insertion in pvNewBlock (the new buffer is
+   appended after the head, which is the last buffer at that point) *)
+Theorem C09_newbuffer_dll_inv : forall h nb, nb <> 0 -> PoolLinksProofs.dll (PoolLinks.new_buffer h nb) [nb].
+Proof. exact PoolLinksProofs.new_buffer_dll. Qed.
+Print Assumptions C09_newbuffer_dll_inv.
+
+Theorem C09_appendnewbuffer_dll_inv : forall h A head nb,
+  PoolLinksProofs.dll h (A ++ [head]) -> nb <> 0 -> ~ In nb (A ++ [head]) ->
+  PoolLinksProofs.dll (PoolLinks.append_new_buffer h head nb) (A ++ [head; nb]) /\
+  (forall x, ~ In x (A ++ [head; nb]) ->
+     PoolLinks.hprev (PoolLinks.append_new_buffer h head nb) x = PoolLinks.hprev h x /\
+     PoolLinks.hnext (PoolLinks.append_new_buffer h head nb) x = PoolLinks.hnext h x).
+Proof. exact PoolLinksProofs.append_new_buffer_dll. Qed.
+Print Assumptions C09_appendnewbuffer_dll_inv.
+
 Theorem C09_dll_inhabited :
   PoolLinksProofs.dll (PoolLinks.heap_of_lists [1; 2] [3; 4]) ([1] ++ 2 :: []) /\
   PoolLinksProofs.dll (PoolLinks.heap_of_lists [1; 2] [3; 4]) ([3] ++ 4 :: []) /\
@@ -151,3 +184,71 @@ Theorem C09_model_count_zero_iff_all_returned : forall ops p,
   PoolModel.acount (PoolModel.get w p) = 0 <-> PoolModel.live (PoolModel.get w p) = [].
 Proof. exact PoolModel.count_zero_iff_all_returned. Qed.
 Print Assumptions C09_model_count_zero_iff_all_returned.
+
+(* ===== concrete code-level model PoolConc (free chains, cache, buffer list; compared with the real pool's private state
+   after every operation of every traced history) ===== *)
+
+(* pvNewBuffer: the free chain of a new buffer enumerates all blockCount blocks 0..C-1 without repetition, freeBlockCount = C,
+   and no other buffer's chain or count changes. *)
+Theorem C09_chain_new_buffer : forall C w, 1 <= C ->
+  let w' := fst (PoolConc.new_buffer C w) in let nb := snd (PoolConc.new_buffer C w) in
+  nb = PoolConc.fresh w /\ PoolConc.chain_of w' nb = PoolConc.upto (Z.to_nat C) 0 /\ NoDup (PoolConc.chain_of w' nb) /\
+  PoolConc.fc w' nb = C /\
+  (forall b, b <> nb -> PoolConc.chain_of w' b = PoolConc.chain_of w b /\ PoolConc.fc w' b = PoolConc.fc w b).
+Proof. exact PoolConcProofs.chain_new_buffer. Qed.
+Print Assumptions C09_chain_new_buffer.
+
+(* pvNewBlock 531-534 (take): the block handed out is the head of the buffer's chain and is removed from it - so it cannot be
+   taken from the chain again while it is live; freeBlockCount stays the length of the chain; other chains untouched. *)
+Theorem C09_chain_take : forall w b, 1 <= PoolConc.fc w b ->
+  let w' := PoolConc.set_bytes w b (PoolConc.nx w b (PoolConc.fb w b)) (PoolConc.fc w b - 1) in
+  PoolConc.chain_of w b = PoolConc.fb w b :: PoolConc.chain_of w' b /\
+  (forall b', b' <> b -> PoolConc.chain_of w' b' = PoolConc.chain_of w b').
+Proof. exact PoolConcProofs.chain_take. Qed.
+Print Assumptions C09_chain_take.
+
+(* pvDeleteBlock 549-553 (push): a block that is not in the chain becomes its new head in front of the unchanged old chain
+   (no repetition is introduced, count + 1 = new length); other chains untouched. *)
+Theorem C09_chain_push : forall w b j, 0 <= PoolConc.fc w b -> ~ In j (PoolConc.chain_of w b) ->
+  let w' := PoolConc.set_bytes (PoolConc.set_nx w b j (PoolConc.fb w b)) b j (PoolConc.fc w b + 1) in
+  PoolConc.chain_of w' b = j :: PoolConc.chain_of w b /\
+  (forall b', b' <> b -> PoolConc.chain_of w' b' = PoolConc.chain_of w b').
+Proof. exact PoolConcProofs.chain_push. Qed.
+Print Assumptions C09_chain_push.
+
+(* a freed block becomes available again: after the push it is the first free block of its buffer, which now has >= 1 free *)
+Theorem C09_freed_block_available_again : forall w b j, 0 <= PoolConc.fc w b -> ~ In j (PoolConc.chain_of w b) ->
+  let w' := PoolConc.set_bytes (PoolConc.set_nx w b j (PoolConc.fb w b)) b j (PoolConc.fc w b + 1) in
+  PoolConc.fb w' b = j /\ 1 <= PoolConc.fc w' b.
+Proof. exact PoolConcProofs.freed_block_available_again. Qed.
+Print Assumptions C09_freed_block_available_again.
+
+(* a buffer goes back to the memory manager only in a pvDeleteBlock whose push made freeBlockCount = blockCount ... *)
+Theorem C09_buffer_returned_only_when_count_full : forall C w p bk x,
+  In x (PoolConc.returned (PoolConc.pvDeleteBlock C w p bk)) ->
+  In x (PoolConc.returned w) \/ (x = fst bk /\ PoolConc.fc w x + 1 = C).
+Proof. exact PoolConcProofs.delete_returns_only_full. Qed.
+Print Assumptions C09_buffer_returned_only_when_count_full.
+
+(* ... and at that moment EVERY block of the buffer is in its free chain (chain without repetition, indexes in range):
+   no block of the buffer can still be live. *)
+Theorem C09_buffer_returned_all_blocks_free : forall C w b j,
+  let w' := PoolConc.set_bytes (PoolConc.set_nx w b j (PoolConc.fb w b)) b j (PoolConc.fc w b + 1) in
+  0 <= PoolConc.fc w b -> ~ In j (PoolConc.chain_of w b) -> NoDup (PoolConc.chain_of w b) ->
+  (forall x, In x (PoolConc.chain_of w b) -> 0 <= x < C) -> 0 <= j < C ->
+  PoolConc.fc w b + 1 = C -> forall k, 0 <= k < C -> In k (PoolConc.chain_of w' b).
+Proof. exact PoolConcProofs.returned_buffer_all_free. Qed.
+Print Assumptions C09_buffer_returned_all_blocks_free.
+
+(* the cache is LIFO: with pvUseCache, a deallocated block is the very next block Allocate returns *)
+Theorem C09_cache_lifo : forall C CF w p bk,
+  let w1 := PoolConc.Deallocate C CF true w p bk in snd (PoolConc.Allocate C true w1 p) = bk.
+Proof. exact PoolConcProofs.cache_lifo. Qed.
+Print Assumptions C09_cache_lifo.
+
+(* the cache is bounded by cachedFreeBlockCount after EVERY history of Allocate / Deallocate / DeallocateIf / DeallocateAll /
+   MergeFrom on both pools (flushing goes through pvDeleteBlock: flush = fold of pvDeleteBlock over the cache, head first) *)
+Theorem C09_cache_bounded_all_histories : forall C CF uc ops, 1 <= CF ->
+  PoolConcProofs.bounded CF (PoolConcProofs.crun C CF uc ops).
+Proof. exact PoolConcProofs.cache_bounded_all_histories. Qed.
+Print Assumptions C09_cache_bounded_all_histories.
